@@ -83,7 +83,7 @@ func report(t vcore.Failer, c sessmodel.Case, r sessmodel.Result) {
 	}
 	key := r.V.Key
 	c.Ops = vcore.MinimizeSlice(c.Ops, func(ops []sessmodel.Op) bool {
-		x := sessmodel.Run(sessmodel.Case{Ops: ops}, or)
+		x := sessmodel.Run(sessmodel.Case{Ops: ops, Refuse: c.Refuse}, or)
 		return x.V != nil && x.V.Key == key
 	}, 300)
 	if x := sessmodel.Run(c, or); x.V != nil {
@@ -145,7 +145,7 @@ func TestC08(t *testing.T) {
 	}
 	g := cfg()
 	vcore.Check(t, vcore.N(1200, 12000), func(rt *rapid.T) {
-		c := sessmodel.Case{Ops: sessmodel.Gen(rt, g)}
+		c := sessmodel.Case{Ops: sessmodel.Gen(rt, g), Refuse: sessmodel.GenRefuse(rt)}
 		r := sessmodel.Run(c, or)
 		account(c, r)
 		report(rt, c, r)
